@@ -126,6 +126,16 @@ def install():
 
 def plan(tier, rng, sl, nslices, stats):
     cfg = TIERS[tier]
+    if sl == 0:
+        # scale cases (one worker): a product with 12 x 13 reachable pairs; operands of 12-14 states with long names
+        a = gfa.counter_case(12, vc="str")
+        b = gfa.counter_case(13, vc="str")
+        yield {"a": a, "b": b, "token": False}
+        a2 = gfa.large_case(rng, kinds=("enfa",), vcs=("longnames",))
+        a2["token"] = False
+        b2 = gfa.large_case(rng, kinds=("nfa",), vcs=("longnames",))
+        b2["token"] = False
+        yield {"a": a2, "b": b2, "token": False}
     for i in range(cfg["random"]):
         if i % 60 == 31:
             # an ordinary-sized operand (ten to fourteen states) against a small one, in both positions; the rational
